@@ -4,7 +4,14 @@ directory, driven event by event; the client is then killed (SIGKILL) or exits n
 
 stdin: one JSON scenario per line; stdout: one JSON result per line.  argv[1]: scratch directory.
 
-scenario = {"events": [ev, ...], "end": "kill" | "exit"}
+scenario = {"events": [ev, ...], "end": "kill" | "exit",
+            "root": "abs" | "rel" | "relsub" | "env" | "envabs"   (how temp_folder is spelled: absolute path, 'tmpjl',
+                    './sub/tmpjl', or temp_folder=None with JOBLIB_TEMP_FOLDER='tmpjl' / absolute),
+            "chdir": bool   (the tracker is started by ensure_running() while the client's cwd is A, then the client
+                    does os.chdir(B); the manager is created afterwards, relative spellings are relative to B)}
+The temp root is always looked at through its REAL ABSOLUTE location B/tmpjl (B/sub/tmpjl).  Every name the
+client hands to register/unregister/maybe_unlink is recorded: names that are not absolute paths are
+reported per event ("rel") -- the tracker resolves names in its own process, with its own cwd.
   ev = ["new", c] | ["mkdir", c] | ["reg", c, f] | ["write", c, f] | ["unl", c, f]
      | ["clean", c, force, allow_non_empty]      (one real manager._clean_temporary_resources call)
      | ["freeze"] | ["thaw"]                     (SIGSTOP / SIGCONT the tracker: it lags behind)
@@ -50,7 +57,7 @@ def client(root, logp, errp, scenario):
 
     joblib.disk.RM_SUBDIRS_RETRY_TIME = 0.002
     log = open(logp, "a", buffering=1)
-    state = {"frozen": False, "n": 0, "actions": []}
+    state = {"frozen": False, "n": 0, "actions": [], "rel": []}
     raw_register = rt.register
 
     def sync():
@@ -76,6 +83,8 @@ def client(root, logp, errp, scenario):
     def wrap_send(kind, func):
         def f(name, rtype):
             state["actions"].append([kind, rtype, name])
+            if not os.path.isabs(name):
+                state["rel"].append(name)
             return func(name, rtype)
         return f
 
@@ -101,7 +110,23 @@ def client(root, logp, errp, scenario):
     delete_folder.__qualname__ = real_delete.__qualname__
     mr.delete_folder = delete_folder
 
-    manager = mr.TemporaryResourcesManager(temp_folder_root=root, context_id="ctx%d" % CTX0)
+    spelling = scenario.get("root", "abs")
+    dir_b = scenario["_dir_b"]
+    if scenario.get("chdir"):
+        os.chdir(scenario["_dir_a"])
+        rt.ensure_running()            # some earlier use of joblib: the tracker's cwd is A
+    os.chdir(dir_b)
+    rel = os.path.relpath(root, dir_b)  # 'tmpjl' or 'sub/tmpjl'
+    if spelling == "abs":
+        arg = root
+    elif spelling == "rel":
+        arg = rel
+    elif spelling == "relsub":
+        arg = "./" + rel
+    else:
+        arg = None
+        os.environ["JOBLIB_TEMP_FOLDER"] = rel if spelling == "env" else root
+    manager = mr.TemporaryResourcesManager(temp_folder_root=arg, context_id="ctx%d" % CTX0)
 
     def folder_of(c):
         p = os.path.join(root, "joblib_memmapping_folder_%d_%s_ctx%d" % (os.getpid(), manager._id, c))
@@ -138,8 +163,8 @@ def client(root, logp, errp, scenario):
 
     rt.ensure_running()
     log.write(json.dumps({"tracker": rt._resource_tracker._pid, "pid": os.getpid(),
-                          "init_actions": names(state["actions"])}) + "\n")
-    state["actions"] = []
+                          "init_actions": names(state["actions"]), "init_rel": state["rel"]}) + "\n")
+    state["actions"], state["rel"] = [], []
     for ev in scenario["events"]:
         kind = ev[0]
         if kind == "new":
@@ -167,8 +192,9 @@ def client(root, logp, errp, scenario):
                 os.kill(rt._resource_tracker._pid, signal.SIGCONT)
                 state["frozen"] = False
         ok = sync()
-        rec = {"ev": ev, "actions": names(state["actions"]), "disk": disk(), "synced": ok, "frozen": state["frozen"]}
-        state["actions"] = []
+        rec = {"ev": ev, "actions": names(state["actions"]), "disk": disk(), "synced": ok, "frozen": state["frozen"],
+               "rel": state["rel"]}
+        state["actions"], state["rel"] = [], []
         log.write(json.dumps(rec) + "\n")
     log.write(json.dumps({"done": True}) + "\n")
     log.flush()
@@ -180,8 +206,11 @@ def client(root, logp, errp, scenario):
 # ------------------------------------------------------------------------- orchestrator
 def run_scenario(sc, scratch):
     base = tempfile.mkdtemp(prefix="c20mg-", dir=scratch)
-    root = os.path.join(base, "root")
-    os.makedirs(root)
+    dir_a, dir_b = os.path.join(base, "A"), os.path.join(base, "B")
+    os.makedirs(dir_a)
+    os.makedirs(dir_b)
+    root = os.path.join(dir_b, "sub", "tmpjl") if sc.get("root") == "relsub" else os.path.join(dir_b, "tmpjl")
+    sc = dict(sc, _dir_a=dir_a, _dir_b=dir_b)
     logp = os.path.join(base, "log")
     errp = os.path.join(base, "stderr")
     scp = os.path.join(base, "scenario.json")
@@ -207,6 +236,7 @@ def run_scenario(sc, scratch):
             if "tracker" in rec:
                 tracker = rec["tracker"]
                 out["init_actions"] = rec["init_actions"]
+                out["init_rel"] = rec.get("init_rel", [])
             elif rec.get("done"):
                 done = True
             else:
@@ -232,7 +262,7 @@ def run_scenario(sc, scratch):
     else:
         out["flags"].append("no-tracker-pid")
     left = []
-    for d in sorted(os.listdir(root)):
+    for d in sorted(os.listdir(root)) if os.path.isdir(root) else []:
         left.append([d.rsplit("_", 1)[-1], sorted(os.listdir(os.path.join(root, d))) if os.path.isdir(os.path.join(root, d)) else None])
     out["left"] = left
     try:
